@@ -65,6 +65,16 @@ func run(t interface{ Fatalf(string, ...any) }, c gcase) (ct, tag []byte) {
 			iv = reusedIV
 		}
 	}
+	// the package-level IV of the CBC/CFB/OFB helpers is none of GCM's business: every third case sets it to something
+	// other than zeros first (the hash subkey H is E(K, 0^128) whatever that IV is)
+	if runNo%3 == 0 {
+		piv := make([]byte, 16)
+		gen.Fill(piv, uint64(runNo)*977+1)
+		sm4.SetIV(piv)
+		R.Class("package_iv_set")
+	} else if runNo%3 == 1 {
+		sm4.SetIV(make([]byte, 16))
+	}
 	var err error
 	if p := hx.Try(func() { ct, tag, err = sm4.Sm4GCM(key, iv, pt, aad, true) }); p != nil {
 		t.Fatalf("%s: Sm4GCM encrypt panicked: %v\n%s", desc, p.Val, p.Stack)
